@@ -416,6 +416,50 @@ pub fn run_check(prop: &str, tier: &str, seed: u64, workers: usize, backend: &st
         eprintln!("harness error: not a single non-trivial run (no message could be built / no byte was delivered)");
         return 2;
     }
+    // cross-check of the two blocking back-ends (thorough only): the same seeds on real OS threads
+    // parked on a baton must give the same event logs as on coroutines
+    let mut crosscheck = 0u64;
+    if tier == "thorough" && found.is_empty() && (prop == "C07" || prop == "C09") {
+        let n_jobs = 4000u64;
+        let next = Arc::new(AtomicU64::new(0));
+        let bad = Arc::new(Mutex::new(Vec::<String>::new()));
+        let done = Arc::new(AtomicU64::new(0));
+        let mut hs = Vec::new();
+        for _ in 0..workers {
+            let (next, bad, done) = (next.clone(), bad.clone(), done.clone());
+            let prop = prop.to_string();
+            hs.push(std::thread::spawn(move || loop {
+                let idx = next.fetch_add(1, Ordering::Relaxed);
+                if idx >= n_jobs {
+                    break;
+                }
+                for sc in seeded_job(&prop, "coro", seed ^ 0x7487, idx) {
+                    if sc.world != WorldKind::Blocking {
+                        continue;
+                    }
+                    let a = run_scenario(&sc, false);
+                    let mut sc2 = sc.clone();
+                    sc2.backend = "threads".into();
+                    let b = run_scenario(&sc2, false);
+                    done.fetch_add(1, Ordering::Relaxed);
+                    if a.full_hash != b.full_hash || a.violation.map(|v| v.signature()) != b.violation.map(|v| v.signature()) {
+                        bad.lock().unwrap().push(format!("type={} seed={}", sc.type_name, sc.seed));
+                    }
+                }
+            }));
+        }
+        for h in hs {
+            let _ = h.join();
+        }
+        crosscheck = done.load(Ordering::Relaxed);
+        let bad = bad.lock().unwrap();
+        if !bad.is_empty() {
+            eprintln!("harness error: coroutine and thread back-ends disagree on {} runs, e.g. {}", bad.len(), bad[0]);
+            return 2;
+        }
+        println!("back-end cross-check: {} blocking runs identical on coroutines and on baton-passed OS threads", crosscheck);
+    }
+    std::env::set_var("FLATSIM_CROSSCHECK_RUNS", crosscheck.to_string());
     let mut violations = 0;
     let mut exit_code = 0;
     if let Some(f) = found.first() {
@@ -667,6 +711,7 @@ fn write_evidence(prop: &str, tier: &str, seed: u64, agg: &Agg, wall: f64, viola
             "runs_async_world": agg.per_world[1],
             "runs_per_message_type": per_type,
             "regression_scenarios_replayed": regress_runs,
+            "thread_backend_crosscheck_runs": std::env::var("FLATSIM_CROSSCHECK_RUNS").ok().and_then(|s| s.parse::<u64>().ok()).unwrap_or(0),
             "miri_tier_runs": std::env::var("FLATSIM_MIRI_RUNS").ok().and_then(|s| s.parse::<u64>().ok()).unwrap_or(0),
             "systematic_layer_runs": systematic_runs,
             "faults_fired": faults,
